@@ -100,15 +100,30 @@ func refOpenRaw(raw, pass []byte) (pt []byte, bad string) {
 }
 
 // refOpenText: the base64 (standard alphabet, padded, single line) form.
-// loose reports that the text contains CR/LF, which encoding/base64 skips and
-// on which the statement promises nothing in particular.
-func refOpenText(text, pass []byte) (pt []byte, bad string, loose bool) {
+// loose names a reason why the statement promises nothing in particular about
+// accepting or rejecting this text ("" = the verdict is binding):
+//
+//	"crlf"          the text contains CR/LF somewhere, which encoding/base64 skips
+//	"blank-ends"    blanks or tabs before / behind the text: OpenSSL's base64 reader
+//	                skips them, Go's does not; pt / bad then describe the text
+//	                without them
+//	"non-canonical" the text decodes, but is not the base64 encoding of what it
+//	                decodes to (non-zero trailing bits in the last quantum): neither
+//	                golib nor openssl ever produces it, a lenient decoder (Go's
+//	                StdEncoding) takes it, a strict one (StdEncoding.Strict()) does not
+func refOpenText(text, pass []byte) (pt []byte, bad string, loose string) {
 	if bytes.ContainsAny(text, "\r\n") {
-		loose = true
+		loose = "crlf"
+	} else if t := bytes.Trim(text, " \t"); len(t) != len(text) {
+		loose = "blank-ends"
+		text = t
 	}
 	raw, err := base64.StdEncoding.DecodeString(string(text))
 	if err != nil {
 		return nil, "not base64: " + err.Error(), loose
+	}
+	if loose == "" && !bytes.Equal(b64(raw), text) {
+		loose = "non-canonical"
 	}
 	pt, bad = refOpenRaw(raw, pass)
 	return pt, bad, loose
